@@ -14,7 +14,7 @@ ASSUMPTIONS = ["reference codec vf/ref/wire.py; 'script the library accepts' is 
 NSHARDS = {"quick": 32, "thorough": 64}
 BUDGET_S = {"quick": 200, "thorough": 1800}
 MIN_HITS = {
-    'quick': {"gen_accepted": 800, "build": 800, "mutant": 2000, "mutant_accepted": 200, "coinbase_tx": 30, "count>=253": 10, "scriptlen>=65536": 3},
+    'quick': {"gen_accepted": 794, "build": 3972, "mutant": 10080, "mutant_accepted": 4150, "coinbase_tx": 69, "count>=253": 20, "scriptlen>=65536": 4},
     'thorough': {"gen_accepted": 76894, "build": 384447, "mutant": 1075200, "mutant_accepted": 443544, "coinbase_tx": 6693, "count>=253": 28, "count>=65536": 2, "scriptlen>=65536": 5},
 }
 
@@ -143,6 +143,17 @@ def cases(ctx):
             yield {"k": "txout", "hex": wire.txout_encode(o).hex()}
     for v in (gen.B64 + [252, 253, 65535, 65536, 2**32 - 1, 2**32])[S::N]:
         yield {"k": "varint", "n": v}
+
+
+def extra_stages(tier, seed, res):
+    """thorough only: libFuzzer finder on the transaction parse/serialise fixed point; artifacts and corpus are re-judged as mutant cases"""
+    if tier != "thorough":
+        return []
+    from . import C09
+
+    r = __import__("random").Random(seed)
+    seeds = [b"\x01" + wire.tx_encode(gen.gen_tx(r, a, b, script_kw={"n_tokens": 2})) for a, b in ((1, 1), (2, 2), (0, 1), (3, 0))]
+    return C09.fuzz_stage(__name__, tier, seed, "roundtrip", 120, lambda data, cls: ([{"k": "mut", "hex": data[1:].hex()}] if data and data[0] & 1 == 1 else []), seeds=seeds, max_len=2048)
 
 
 def definitely_accepted(sc):
